@@ -453,7 +453,7 @@ var specViews = pbt.Register(&pbt.Spec[Case]{
 		"exactly the rows of a flat matrix; two middle rows exchanged; one middle row a value short; one middle row replaced by the first. Oracle: cell (x,y) = jagged[y][x] where that " +
 		"exists, else the zero value (the expectation is taken from the row slices themselves, not from their addresses), and the array is unaffected when the buffer is overwritten afterwards; " + rule,
 	Enum: viewCases,
-	Run:  Run,
+	Run:  Run, Replicas: 4, ReplicaEvery: 8,
 })
 
 func TestC08Views(t *testing.T) { pbt.Check(t, specViews) }
